@@ -7,7 +7,10 @@ container object refers to its private item list and to one value list per key; 
 place or rebind a reference to a freshly built list; `copy()` builds every list anew from the pairs.
 
 Theorems (for every heap, every container, every history of `append` / `__setitem__` / `__delitem__` /
-`pop()` / `extend(pairs)` / `update(pairs)` / `clear()` / `discard(key)` on either side, unbounded):
+`pop()` / `extend(pairs)` / `update(pairs)` / `clear()` / `discard(key)` / `popall(key)` /
+`insert(index, pairs)` on either side, unbounded — the remaining documented mutators have the heap effect
+of one of these: `insert_before/after` are `insert` at the index `key_index` gives, `setdefault` is a
+lookup or `append`, `popitem()` is `pop()`, `pop(key)` is `popall(key)`):
 
 * `C11_copy_equal_intact`: the copy shows the same pairs, and making it leaves the original's pair list
   and every one of its value lists as they were;
@@ -88,6 +91,34 @@ theorem extend_keeps_item_list (ps : List (K × V)) : ∀ (h : Heap) (c : Cont),
     simp only [appendAll]
     rw [ih, append_keeps_item_list]
 
+theorem insert_keeps_item_list (ps : List (K × V)) : ∀ (h : Heap) (c : Cont) (i : Nat),
+    (insertAll h c i ps).2.items = c.items := by
+  induction ps with
+  | nil => intro h c i; rfl
+  | cons p r ih =>
+    intro h c i
+    obtain ⟨k, v⟩ := p
+    simp only [insertAll]
+    rw [ih]
+    unfold insertOne
+    simp only
+    split <;> rfl
+
+/-- `insert` of a pair whose key is present stores a fresh value list for that key -/
+theorem insert_existing_rebinds_values (h : Heap) (c : Cont) (i : Nat) (k : K) (v : V)
+    (hk : c.dict.any (fun p => p.1 == k) = true) :
+    ∀ p ∈ (insertOne h c i k v).2.dict, (p.1 == k) = true → p.2 = h.vNext := by
+  unfold insertOne
+  simp only [hk, if_true]
+  intro p hp hpk
+  simp only [Heap.allocVals, Heap.setItems, List.mem_map] at hp
+  obtain ⟨q, _, e⟩ := hp
+  split at e
+  · rw [← e]
+  · rename_i hne
+    rw [← e] at hpk
+    exact absurd hpk hne
+
 theorem clear_rebinds_item_list (h : Heap) (c : Cont) : (clear h c).2.items = h.iNext ∧ (clear h c).2.dict = [] :=
   ⟨rfl, rfl⟩
 
@@ -95,7 +126,7 @@ theorem clear_rebinds_item_list (h : Heap) (c : Cont) : (clear h c).2.items = h.
     (an instance of `C11_independent`, evaluated) -/
 example : let (h1, c1) := copy h0' c0'
     view (run h1 c1 [.extend [(1, 6), (2, 7)], .update [(1, 8), (3, 9)], .discard 2, .discard 4, .popLast,
-      .append 5 5, .setitem 5 6, .delitem 1, .clear]).1 c0' = view h0' c0' := by decide
+      .append 5 5, .setitem 5 6, .insert 1 [(1, 7), (6, 1)], .popall 6, .delitem 1, .clear]).1 c0' = view h0' c0' := by decide
 
 /-- a heap with one container holding the pair (1, 5) -/
 def h0 : Heap := ⟨fun i => if i = 0 then [(1, 5)] else [], 1, fun i => if i = 0 then [5] else [], 1⟩
